@@ -2,7 +2,7 @@
    reporter operations, "no nil dereference" and "the callback gets the error"
    for every state and history of the repaired reporter. *)
 From Coq Require Import ZArith List Bool Lia Arith.
-From Tally Require Import Base.Obs Base.Search Model.Buckets Model.Prom.
+From Tally Require Import Base.ObsCore Base.Search Model.Buckets Model.Prom.
 Import ListNotations.
 Open Scope Z_scope.
 
